@@ -178,7 +178,9 @@ class Weaver:
             # be followed (false alarm on benign/C/benign3.diff)
             mt = rs.mask(txt)
             b0 = mt.find('{')
-            if b0 >= 0 and not re.search(r'[({]', mt[b0 + 1:rs.match_close(mt, b0)]):
+            # (only for items at the top level of the unit: inside a `mod` block the derive makes Verus 0.2026.09.13 die with
+            #  "VerusErasureCtxt has not been initialized")
+            if b0 >= 0 and not re.search(r'[({]', mt[b0 + 1:rs.match_close(mt, b0)]) and getattr(self, '_tmpl_depth', 0) <= 1:
                 keep.append('Structural')
         if keep and 'noderive' not in opts:
             self.emit('#[derive(%s)]\n' % ', '.join(keep), {'k': 'repo', 'file': rel, 'line': line0, 'item': path, 'what': 'derive subset'})
@@ -585,6 +587,8 @@ class Weaver:
                             lp[k[5:]] = _split_clauses(lp[k])
                 self.emit_fn(rel.strip(), path.strip(), d)
             else:
+                ml = rs.mask(ln)
+                self._tmpl_depth = getattr(self, '_tmpl_depth', 0) + ml.count('{') - ml.count('}')
                 self.emit(ln + '\n', {'k': 'tmpl', 'line': i + 1})
                 i += 1
         return self.render()
